@@ -39,7 +39,7 @@ func decoderRoots(p *Program, pkgs map[string]bool) []*ssa.Function {
 		}
 		nm := f.Name()
 		switch {
-		case pkgs["cache"] && inPkg(f, "cache") && (nm == "FromBytes" || nm == "readBytes" || nm == "readUint32ToInt" || nm == "readUint64ToInt64"):
+		case pkgs["cache"] && inPkg(f, "cache") && (nm == "FromBytes" || nm == "readBytes" || nm == "readUint32ToInt" || nm == "readUint64ToInt64" || nm == "initFromStore"):
 			roots = append(roots, f)
 		case pkgs["compress"] && inPkg(f, "compress") && (strings.HasSuffix(nm, "Decode") || nm == "Gunzip" || nm == "doGunzip"):
 			roots = append(roots, f)
@@ -62,10 +62,34 @@ func ruleDecoderBounds(c *Ctx, pkgs map[string]bool) {
 	n, sites := 0, 0
 	bad := []string{}
 	for _, fn := range roots {
-		sim := c.P.Simulate(fn, SimConfig{IndexEvents: true, MaxVisits: 2}, func(pr *PathResult) {
+		sim := c.P.Simulate(fn, SimConfig{IndexEvents: true, SliceEvents: true, MaxVisits: 2}, func(pr *PathResult) {
 			n++
 			for _, e := range pr.Events {
 				switch {
+				case e.Kind == "slicebounds":
+					// x[lo:hi] on data: lo must be known non-negative when it is computed by a subtraction
+					base, lo := e.Args[0], e.Args[1]
+					if hi, ok := e.Args[2].IntVal(); ok && hi > 0 {
+						// x[:N] with a constant N on data of unknown length
+						sites++
+						f := factsAt(c.P, pr, e)
+						L := &Term{Op: "len", Type: tInt, Args: []*Term{base}}
+						if n2, ok := fixedLenTerm(base); ok && n2 >= hi {
+							continue
+						}
+						if k, short := f.Decide(ltTerm(L, intTerm(hi))); !(k && !short) {
+							bad = append(bad, fmt.Sprintf("%s: %s takes the first %d bytes of %s without its length being known to be at least that (shorter input makes the slice expression panic)", c.P.pos(e.Instr.Pos()), funcName(e.Fn), hi, prettyTerm(base)))
+						}
+						continue
+					}
+					if lo.Op == "none" || !lo.contains(func(x *Term) bool { return x.Op == "bin" && x.Name == "-" }) {
+						continue
+					}
+					sites++
+					f := factsAt(c.P, pr, e)
+					if iv := f.Interval(lo); iv.Lo == nil || iv.Lo.Sign() < 0 {
+						bad = append(bad, fmt.Sprintf("%s: %s slices %s from %s, which is not known to be non-negative (a value shorter than expected makes the slice expression panic)", c.P.pos(e.Instr.Pos()), funcName(e.Fn), prettyTerm(base), prettyTerm(lo)))
+					}
 				case e.Kind == "index":
 					sites++
 					base, idx := e.Args[0], e.Args[1]
